@@ -8,3 +8,4 @@ open GrVerif.Props.C03
 #print axioms passes_keep_stream
 #print axioms reversal_keeps_stream
 #print axioms reversal_touches_links_only
+#print axioms indices_are_a_permutation
